@@ -62,6 +62,18 @@ def _src(r):
         ts = tzdb.wall_to_instants(zone, f)
         # is_dst for the occurrence we mean: the earlier one of a repeated wall time is the DST one
         is_dst = bool(len(ts) == 2 and inst == ts[0])
+        if not _pytz_agrees(zone, f, is_dst, off):
+            # pytz bundles its own copy of the tz database; where it disagrees with the tzdata
+            # package (historical corrections, e.g. Asia/Tehran 1979) the source datetime denotes
+            # another instant by construction - version skew, not a statement about pendulum
+            inst = tzdb.year_start_us(r.randint(2000, 2030)) + r.randrange(0, 365 * 86400 * US)
+            f, off, fold = tzdb.render(zone, inst)
+            ts = tzdb.wall_to_instants(zone, f)
+            is_dst = bool(len(ts) == 2 and inst == ts[0])
+            if not _pytz_agrees(zone, f, is_dst, off):
+                zone, inst = "UTC", inst
+                f, off, fold = tzdb.render(zone, inst)
+                is_dst = False
         return {"$": "pytz_loc", "f": f, "k": zone, "is_dst": is_dst}, {"inst": inst, "zone": zone, "kind": "pytz", "off": off}
     f, off, fold = tzdb.render(zone, inst)
     if kind == "dateutil" and isinstance(zone, str):
@@ -75,6 +87,18 @@ def _src(r):
         fold = 0
     spec = {"$": "native", "f": f, "tz": {"$": "ntz", "kind": kind, "k": zone}, "fold": fold}
     return spec, {"inst": inst, "zone": zone, "kind": kind, "off": off}
+
+
+def _pytz_agrees(zone, f, is_dst, off):
+    try:
+        import datetime as _dt
+
+        import pytz
+
+        o = pytz.timezone(zone).localize(_dt.datetime(*f), is_dst=is_dst).utcoffset()
+        return o is not None and o.days * 86400 + o.seconds == off
+    except Exception:
+        return False
 
 
 def _tzarg(r, zone):
